@@ -20,7 +20,8 @@ them for side-chain blocks too.  The epoch *number* → index row is part of `Ma
 first block of an epoch is attached and deleted by `detach_block`, and `verify_block` stores only the
 epoch record.  The behaviour before the repair (`insert_epoch_ext` wrote the number row for every
 block that opens an epoch, main chain or not, and nothing else touched it) is kept as
-`PreFix.process` / `PreFix.truncate` for the regression witness in `Props/C02.lean`.
+`PreFix.process` / `PreFix.truncate` for the regression witness in `Props/C02.lean`.  Likewise the
+META current-epoch write condition before the repair of finding F12 is kept as `PreF12.process`.
 -/
 import CkbVerif.Gen.Store
 namespace CkbVerif.Store
@@ -365,7 +366,9 @@ def commitBest (v : View) (b : Block) (det att : List Block) : View :=
   let v1 := rollback v det.reverse
   let v2 := reconcile v1 att
   let m := { v2.m with tip := some b.id }
-  let m := if b.isHead || !det.isEmpty then { m with curEpoch := some b.epochRec } else m
+  -- `if new_epoch || fork.has_detached() || fork.attached_blocks().len() > 1` (the third disjunct
+  -- is the repair of finding F12, /repo commit 1f10d03; `PreF12.commitBest` is the code before it)
+  let m := if b.isHead || !det.isEmpty || decide (att.length > 1) then { m with curEpoch := some b.epochRec } else m
   ⟨m, v2.r⟩
 
 def process (v : View) (b : Block) : View :=
@@ -416,5 +419,35 @@ def truncate (v : View) (target : Nat) : View :=
   ⟨{ v'.m with epochNum := v.m.epochNum }, v'.r⟩
 
 end PreFix
+
+/-! ### the behaviour before the repair of finding F12 (regression witness only)
+`verify_block` rewrote META current-epoch only `if new_epoch || fork.has_detached()`. -/
+namespace PreF12
+
+def commitBest (v : View) (b : Block) (det att : List Block) : View :=
+  let v1 := rollback v det.reverse
+  let v2 := reconcile v1 att
+  let m := { v2.m with tip := some b.id }
+  let m := if b.isHead || !det.isEmpty then { m with curEpoch := some b.epochRec } else m
+  ⟨m, v2.r⟩
+
+def process (v : View) (b : Block) : View :=
+  let r0 := insertBlock v.r b
+  let ext := freshExt r0 b
+  let tipId := v.m.tip.getD 0
+  let newBest := decide (ext.td > tdOf r0 tipId)
+  let r1 := insertBlockEpoch r0 b
+  let r2 := if b.isHead then insertEpochExt r1 b.epochRec else r1
+  if newBest then
+    let r3 := putExt r2 b.id ext
+    let (attTail, common) := walkBack v.m r3 (b.number + 1) b.parent []
+    let tipNumber := numberOf r3 tipId
+    let lo := common.getD 0
+    let det := mainBlocks v.m r3 lo (tipNumber - lo)
+    commitBest ⟨v.m, r3⟩ b det (attTail ++ [b])
+  else
+    ⟨v.m, putExt r2 b.id ext⟩
+
+end PreF12
 
 end CkbVerif.Store
